@@ -271,7 +271,7 @@ def run(tier: str, seed: int, t0: float) -> int:
         need.append((f"JsonStep:{t}:ok", 15))
     for key, least in need:
         if stats.counts.get(key, 0) < least:
-            raise core.MachineryError(f"vacuity gate: {key}={stats.counts.get(key, 0)} < {least}")
+            core.vacuity(out, f"vacuity gate: {key}={stats.counts.get(key, 0)} < {least}")
     return core.finish("C05", tier, seed, stats, out, t0,
                        rule="objects pushed through to_json -> json text -> from_json: every TLC-generated document (attributes, marks), every cut of them and "
                             "zero-size open slices, enumerated and random steps of all eight types (effect and map compared on several documents), marks; "
